@@ -66,6 +66,45 @@ def _log_session(ctx, driver, spec, new, res):
     })
 
 
+def sync_tree(ctx, tree):
+    """persistent world: the directory (incl. __pycache__) survives between the sessions of one history.  Files are brought to the
+    given content without touching the others, then the *simulated clock* is applied: every source file gets the mtime of this
+    logical step (one hour per session, far in the past), so that .pyc validation (int(mtime), size) never depends on how many
+    real seconds passed between two simulated sessions; whatever a session writes carries the real clock, i.e. another mtime."""
+    import os
+
+    from .world import read_tree, write_tree
+
+    os.makedirs(ctx.world, exist_ok=True)
+    cur = read_tree(ctx.world)
+    for k in cur:
+        if k not in tree:
+            os.unlink(os.path.join(ctx.world, k))
+    written = {k: v for k, v in tree.items() if cur.get(k) != v}
+    write_tree(ctx.world, written)
+    step = getattr(ctx, "clock_step", 0) + 1
+    ctx.clock_step = step
+    t = 1_500_000_000 + 3600 * step
+    for k in written:  # what the user (the harness) wrote in this step carries this step's time
+        os.utime(os.path.join(ctx.world, k), (t, t))
+
+
+def normalise_clock(ctx):
+    """after a session: whatever the session wrote carries the real clock; map it to the logical time of this step (distinct from
+    every time the harness assigns), so that two simulated sessions inside one real second cannot collide.  A file whose mtime the
+    session did NOT move keeps its old logical time - that is observable behaviour of the system under test, not of the harness."""
+    import os
+
+    t = 1_500_000_000 + 3600 * getattr(ctx, "clock_step", 0) + 1800
+    for dirpath, dirnames, filenames in os.walk(ctx.world):
+        if "__pycache__" in dirpath:
+            continue
+        for fn in filenames:
+            p = os.path.join(dirpath, fn)
+            if os.stat(p).st_mtime > 1_600_000_000:
+                os.utime(p, (t, t))
+
+
 def run_session(ctx, driver, files, spec, timeout=60.0):
     """files: durable state {relpath: bytes|str}.  -> (new_files (bytes), result)"""
     new, res = _run_session(ctx, driver, files, spec, timeout)
@@ -88,8 +127,17 @@ def _run_session(ctx, driver, files, spec, timeout=60.0):
         # "$W" in a file stands for the absolute path of the world directory (absolute storage-dir etc.);
         # it is substituted on the way in and out so that logs and digests do not depend on the scratch path
         wb = ctx.world.encode()
-        reset_tree(ctx.world, {k: (v.replace(b"$W", wb) if k.endswith(".toml") else v) for k, v in files.items()})
+        tree = {k: (v.replace(b"$W", wb) if k.endswith(".toml") else v) for k, v in files.items()}
+        if getattr(ctx, "persistent", False) and "persistent" not in spec:
+            # multi-session histories run over one persistent directory with the bytecode caches switched on
+            spec = dict(spec, persistent=True, bytecode=True)
+        if spec.get("persistent"):
+            sync_tree(ctx, tree)
+        else:
+            reset_tree(ctx.world, tree)
         res = drivers.run_plugin(ctx.world, spec, ctx.scratch, timeout)
+        if spec.get("persistent"):
+            normalise_clock(ctx)
         new = {k: (v.replace(wb, b"$W") if k.endswith(".toml") else v) for k, v in read_tree(ctx.world).items()}
         if res.get("out"):
             res["out"] = res["out"].replace(ctx.world, "$W")
